@@ -443,3 +443,19 @@
         assert(verify_core(a, c, pk.t1_d2_hat_mont, mu, sig, gamma1, gamma2, omega, lam4));
         assert(verify_wit(pk, sig, tau, lam4, a, c));
     }
+    // verify_spec determines the result (ExpandA and SampleInBall are functional)
+    pub proof fn lemma_verify_spec_det<const K: usize, const L: usize>(r1: bool, r2: bool, pk: PublicKey<K, L>, mu: Seq<u8>, sig: Seq<u8>,
+            beta: int, gamma1: int, gamma2: int, omega: int, tau: int, lam4: int)
+        requires tau >= 0, verify_spec(r1, pk, mu, sig, beta, gamma1, gamma2, omega, tau, lam4), verify_spec(r2, pk, mu, sig, beta, gamma1, gamma2, omega, tau, lam4),
+        ensures r1 == r2,
+    {
+        let canon = hint_canonical(sig_hint_bytes(sig, gamma1, lam4, L as int), omega, K as int);
+        if canon {
+            let (a1, c1) = choose|a: [[T; L]; K], c: R| #[trigger] verify_wit(pk, sig, tau, lam4, a, c)
+                && r1 == (sig_z_norm_ok(sig, gamma1, beta, lam4, L as int) && verify_core(a, c, pk.t1_d2_hat_mont, mu, sig, gamma1, gamma2, omega, lam4));
+            let (a2, c2) = choose|a: [[T; L]; K], c: R| #[trigger] verify_wit(pk, sig, tau, lam4, a, c)
+                && r2 == (sig_z_norm_ok(sig, gamma1, beta, lam4, L as int) && verify_core(a, c, pk.t1_d2_hat_mont, mu, sig, gamma1, gamma2, omega, lam4));
+            lemma_expand_a_unique(pk.rho@, a1, a2);
+            lemma_sib_unique(tau, shake256(sig.subrange(0, lam4)), c1, c2);
+        }
+    }
